@@ -199,13 +199,24 @@ impl<'a, I: Iterator<Item = Item>, F: StreamFilter + 'a> Iterator for Compaction
                     let drop_weak_tombstone = peeked.key.value_type == ValueType::Value
                         && head.key.value_type == ValueType::WeakTombstone;
 
+                    if drop_weak_tombstone {
+                        // NOTE: The weak tombstone and the value directly beneath it cancel each other out,
+                        // but anything older must stay: it may be another weak tombstone that still
+                        // shadows a value in a lower level, so it becomes the new head of this user key
+                        if let Some(value) = self.inner.next() {
+                            let value = fail_iter!(value);
+
+                            if let Some(watcher) = &mut self.dropped_callback {
+                                watcher.on_dropped(&value);
+                            }
+                        }
+
+                        continue;
+                    }
+
                     // NOTE: Next item is expired,
                     // so the tail of this user key is entirely expired, so drain it all
                     fail_iter!(self.drain_key(&head.key.user_key));
-
-                    if drop_weak_tombstone {
-                        continue;
-                    }
                 }
             } else if head.is_tombstone() && self.evict_tombstones {
                 continue;
